@@ -272,6 +272,14 @@ func VerifAsync() {
 			// the crash came before the request was persisted: it was never acknowledged
 			return
 		}
+		if rt.Param("NEWFRAC") == 1 && rt.Choose(2) == 1 {
+			// ingestion went on around the restart: a fraction that did not exist when the search was started
+			extra := seq.ID{MID: seq.MID(rt.NondetU64()), RID: seq.RID(rt.NondetU64())}
+			rt.Assume(rt.And(extra.MID >= 1, extra.MID < 64))
+			nfr := &vAFrac{info: &frac.Info{Path: "seq-db-09", From: extra.MID, To: extra.MID, DocsTotal: 1}, ids: []seq.ID{extra}}
+			fm.fracs = append(fm.fracs, &fracRef{instance: nfr})
+			rt.Reach("new-fraction-before-resume")
+		}
 		for _, id := range notProcessedTasks(loaded) {
 			as.processRequest(id)
 		}
